@@ -2,9 +2,12 @@ package harness
 
 import (
 	"fmt"
+	"runtime"
 	"sort"
 	"strings"
 	"time"
+
+	"github.com/alpacahq/marketstore/v4/executor"
 
 	"github.com/anishathalye/porcupine"
 
@@ -48,6 +51,7 @@ type schedRun struct {
 	probes       map[string]int64
 	cold         bool // clients started before the background WAL writer task ran
 	stuckClients int
+	inlineFlush  bool // a request found haveWALWriter false in RequestFlush after Shutdown was requested
 }
 
 type schedCfg struct {
@@ -159,6 +163,43 @@ func runSched(w *Workload, c schedCfg, seed uint64) *schedRun {
 		wg := &simrt.WaitGroup{}
 		writesDone := 0
 		shutting := false
+		if c.shutdown {
+			// once Shutdown has been requested: does a client request find the WAL writer gone when it asks
+			// for its flush (it reads the unsynchronised haveWALWriter in RequestFlush
+			// and, if false, flushes inline)?
+			// (The scheduling point comes before the read; nothing else runs between
+			// the read and the task's next scheduling point, so the flag's value at
+			// that next point is the value the task read.)
+			atRequestFlush := map[int]bool{}
+			simrt.S.OnYield = func(site string) {
+				if sr.inlineFlush {
+					return
+				}
+				id := simrt.CurTaskID()
+				if atRequestFlush[id] {
+					delete(atRequestFlush, id)
+					if shutting && !executor.VerifHaveWALWriter() {
+						sr.inlineFlush = true
+						return
+					}
+				}
+				if site != "shared-read" || !strings.HasPrefix(simrt.S.TaskName(id), "client") {
+					return
+				}
+				pcs := make([]uintptr, 24)
+				fr := runtime.CallersFrames(pcs[:runtime.Callers(2, pcs)])
+				for {
+					f, more := fr.Next()
+					if strings.HasSuffix(f.Function, ".RequestFlush") {
+						atRequestFlush[id] = true
+						return
+					}
+					if !more {
+						return
+					}
+				}
+			}
+		}
 		for ci := range plans {
 			ci := ci
 			wg.Add(1)
